@@ -113,20 +113,21 @@ def run(ctx):
     # ---- R3
     R = m.get_class(FILE, 'ResolveAssociatesTransformer')
     ve = R.function('visit_Expression')
-    ok = ve is not None and X.has(ast.unparse(ve.node), 'ResolveAssociateMapper(start_depth=self.start_depth)(o)')
-    (ctx.judge('R3', 'visit_Expression applies the mapper') if ok else
-     ctx.violation('R3', 'ResolveAssociatesTransformer.visit_Expression', R.where, 'expressions are not passed through ResolveAssociateMapper'))
+    if ve is None:
+        ctx.violation('R3', 'ResolveAssociatesTransformer.visit_Expression', R.where, 'expressions are not passed through ResolveAssociateMapper')
+    else:
+        ctx.wired('R3', 'ResolveAssociatesTransformer.visit_Expression', R.where, ast.unparse(ve.node),
+                  ['ResolveAssociateMapper(start_depth=self.start_depth)(o)'], 'expressions are not passed through ResolveAssociateMapper')
     va = R.function('visit_Associate')
     rets = [ast.unparse(r.value) for r in ast.walk(va.node) if isinstance(r, ast.Return)]
     bn = (X.names_assigned_from(va.node, 'self.visit(o.body') or ['body'])[0]
-    ok = sorted(rets) == sorted([bn, f'o.clone(body={bn})']) and X.has(ast.unparse(va.node), 'body = self.visit(o.body, **kwargs)')
+    ok = sorted(rets) == sorted([bn, f'o.clone(body={bn})'])
     (ctx.judge('R3', 'visit_Associate returns visited body', facts={'returns': rets}) if ok else
      ctx.violation('R3', 'ResolveAssociatesTransformer.visit_Associate', va.where, f'visit_Associate returns {rets}'))
     dra = m.get_function(FILE, 'do_resolve_associates')
     src = ast.unparse(dra.node)
-    ok = X.has(src, 'routine.body = transformer.visit(routine.body)') and X.has(src, 'routine.rescope_symbols()')
-    (ctx.judge('R3', 'do_resolve_associates wiring') if ok else
-     ctx.violation('R3', 'do_resolve_associates', dra.where, 'body not replaced by the transformed body / symbols not rescoped'))
+    ctx.wired('R3', 'do_resolve_associates', dra.where, src, ['routine.body = transformer.visit(routine.body)', 'routine.rescope_symbols()'],
+              'body not replaced by the transformed body / symbols not rescoped')
     _r4_r5(ctx)
 
 
